@@ -152,8 +152,8 @@ def cmp_rule(ck, mod, label):
     except ValueError:
         raise Broken("anchor vanished: parameters of %s are %s" % (CT, names))
     where0 = relpath("%s:%d" % (f.file, f.line))
-    if len(f.loops) < 2:
-        raise Broken("%s no longer consists of a compare loop and a wipe loop (loops=%d): unrecognised idiom" % (CT, len(f.loops)))
+    if len(f.loops) < 1:
+        raise Broken("%s has no compare loop: unrecognised idiom" % CT)
     # identify loops by what they access
     cmp_loop = wipe_loop = None
     for L in f.loops:
@@ -164,8 +164,8 @@ def cmp_rule(ck, mod, label):
             cmp_loop = L
         if st and all(_scev_base(f, s.ops[1]) == ("a", pi) for s in st):
             wipe_loop = L
-    if cmp_loop is None or wipe_loop is None:
-        raise Broken("%s: cannot identify compare/wipe loops: unrecognised idiom" % CT)
+    if cmp_loop is None:
+        raise Broken("%s: cannot identify the compare loop: unrecognised idiom" % CT)
     # ---- compare loop coverage
     L = cmp_loop
     btc = L["btc"]
@@ -224,13 +224,12 @@ def cmp_rule(ck, mod, label):
     if len(rets) != 1:
         raise Broken("%s has %d returns" % (CT, len(rets)))
     R = rets[0]
-    mask_store = [I for I in f.insts if I.b in wipe_loop["blocks"] and I.op == "store"]
     res = {}
     maskv = {}
     for a in range(256):
         env = {("i", acc.id): a}
         for I in f.insts:
-            if I.b in cmp_loop["blocks"] or I.b in wipe_loop["blocks"]:
+            if f.blocks[I.b].loop != -1:
                 continue
             if I.op in ("phi", "br", "ret", "call", "load", "store", "alloca", "getelementptr", "bitcast"):
                 continue
@@ -247,57 +246,81 @@ def cmp_rule(ck, mod, label):
     bad = [a for a in range(1, 256) if res.get(a) != 0xFFFFFFFF]
     ck.ob(okn, "R-C03-CMP", CT, "fold-reject[%s]" % label, "every accum in [1,255] (any differing bit) -> result -1 (255 values, exhaustive)",
           "accum = %s yields %s instead of -1: some wrong tags are accepted or mis-reported" % (bad[:3], [res.get(a) for a in bad[:3]]), where=relpath(R.where))
-    # ---- wipe loop (C04)
-    W = wipe_loop
-    btc = W["btc"]
-    okb = btc.get("k") == "u" and tuple(btc["v"]) == ("a", li)
-    ck.ob(okb, "R-C04-WIPE", CT, "wipe-trip-count[%s]" % label, "wipe loop runs exactly plaintext_len times (SCEV back-edge count)",
-          "wipe loop runs %s times, not plaintext_len: bytes beyond that survive a rejection" % W["btc_text"], where=where0)
-    ck.ob(len(mask_store) == 1, "R-C04-WIPE", CT, "wipe-one-store[%s]" % label, "one store per iteration", "%d stores in the wipe loop" % len(mask_store), where=where0)
-    for S in mask_store[:1]:
-        P = f.inst(S.ops[1])
-        sc = P.get("scev") if P is not None else None
-        okp = bool(sc) and sc.get("k") == "rec" and sc["loop"] == W["header"] and sc["ops"][0].get("k") == "u" and tuple(sc["ops"][0]["v"]) == ("a", pi) \
-            and sc["ops"][1].get("k") == "c" and sc["ops"][1]["v"] == "1"
-        unc = all(f.dominates_block(S.b, l) for l in W["latches"])
-        ck.ob(okp and unc and S.get("size") == 1, "R-C04-WIPE", CT, "wipe-address[%s]" % label,
-              "store address is {plaintext,+,1}, one byte, unconditional: bytes [0, plaintext_len)",
-              "wipe store is not an unconditional byte store at {plaintext,+,1}", where=relpath(S.where))
-        # value: p[i] & mask  where mask is all-ones iff accum == 0 else 0 (low 8 bits)
-        lds = [I for I in f.insts if I.b in W["blocks"] and I.op == "load"]
-        ld = [I for I in lds if I.ops[0] == S.ops[1]]
-        if len(ld) != 1:
-            ck.bad("R-C04-WIPE", CT, "wipe-value[%s]" % label, "the wipe store does not combine the byte at the same address", where=relpath(S.where))
+    # ---- wipe (C04): coverage for every length/alignment class + value of every store
+    wipe_rule(ck, mod, f, label, pi, li, si, maskv, cmp_loop)
+    return 1
+
+
+def wipe_rule(ck, mod, f, label, pi, li, si, maskv, cmp_loop):
+    from .. import cov
+    where0 = relpath("%s:%d" % (f.file, f.line))
+    # (1) coverage: the stores to the plaintext buffer tile exactly [0, plaintext_len) in every (alignment, length) class
+    n, bad, used = cov.coverage(f, pi, li, fixed_args={si: TAG})
+    ck.ob(bad is None, "R-C04-WIPE", CT, "wipe-coverage[%s]" % label,
+          "the stores to the plaintext buffer cover exactly bytes [0, plaintext_len) in all %d (alignment, length) classes "
+          "(lengths 0..63 individually, residues mod 8 for longer ones; trip counts from ScalarEvolution)" % n,
+          "for %s: %s - on a rejection %s" % (bad[0] if bad else "", bad[1] if bad else "",
+                                              "candidate plaintext survives or memory beyond the buffer is modified"), where=where0)
+    stores = [I for I in f.insts if I.op == "store" and I.id in used]
+    ck.ob(bool(stores), "R-C04-WIPE", CT, "wipe-stores[%s]" % label, "%d store(s) write the plaintext buffer" % len(stores), "nothing writes the plaintext buffer", where=where0)
+    for S in stores:
+        lds = [I for I in f.insts if I.op == "load" and I.ops[0] == S.ops[1] and I.b == S.b]
+        if len(lds) != 1:
+            ck.bad("R-C04-WIPE", CT, "wipe-value#%s[%s]" % (_an(f, S), label), "the store does not combine the bytes already at the same address", where=relpath(S.where))
             continue
-        ldi = ld[0]
-        # find the mask leaf: any non-loop value used
+        ldi = lds[0]
+        w = 8 * S.get("size")
         leaves = {}
 
-        def leaf(v):
+        def leaf(v, ldi=ldi, w=w, leaves=leaves):
             if v == ("i", ldi.id):
-                return gf2.sym_word("p", 8)
+                return gf2.sym_word("p", w)
             I = f.inst(v)
-            if I is not None and I.b not in W["blocks"] and I.bits:
+            if I is not None and f.blocks[I.b].loop == -1 and I.bits and I.op not in ("zext", "trunc", "sext", "and", "or", "xor"):
                 leaves[v] = I
                 return gf2.sym_word(("m", v[1]), I.bits)
             return None
         G2 = gf2.Gf2(f, leaf)
         got = G2.ev(S.ops[0])
-        okv = len(leaves) == 1
-        mk = list(leaves)[0] if leaves else None
+        okv = True
+        used_mask_bits = []
+        for j in range(w):
+            bit = got[j] if j < len(got) else None
+            ok1 = False
+            if bit is not None and bit is not gf2.TOP and len(bit) == 1:
+                (atom,) = tuple(bit)
+                if atom[0] == "&":
+                    parts = list(atom[1])
+                    if len(parts) == 2:
+                        for x, y in ((parts[0], parts[1]), (parts[1], parts[0])):
+                            if x == frozenset([("v", "p", j)]) and len(y) == 1:
+                                (ya,) = tuple(y)
+                                if ya[0] == "v" and isinstance(ya[1], tuple) and ya[1][0] == "m":
+                                    used_mask_bits.append((("i", ya[1][1]), ya[2]))
+                                    ok1 = True
+            if not ok1:
+                okv = False
+                break
+        ck.ob(okv, "R-C04-WIPE", CT, "wipe-value#%s[%s]" % (_an(f, S), label), "stored bit j = old bit j AND one mask bit, for all %d bits" % w,
+              "the stored value is not (old bytes & mask): bit %s is %s" % (j, gf2.describe(got[j]) if j < len(got) else "?"), where=relpath(S.where))
         if okv:
-            mw = gf2.sym_word(("m", mk[1]), f.inst(mk).bits)
-            want = gf2.wand(gf2.sym_word("p", 8), mw[:8])
-            okv = got == want
-        ck.ob(okv, "R-C04-WIPE", CT, "wipe-value[%s]" % label, "stored byte = p[i] & mask[7:0]",
-              "stored byte is not p[i] & mask (bits: %s)" % [gf2.describe(b) for b in (got or [])[:2]], where=relpath(S.where))
-        if okv:
-            m0 = maskv[0].get(mk)
-            okm = m0 is not None and (m0 & 0xFF) == 0xFF and all((maskv[a].get(mk) or 0) & 0xFF == 0 and maskv[a].get(mk) is not None for a in range(1, 256))
-            ck.ob(okm, "R-C04-WIPE", CT, "wipe-mask[%s]" % label,
-                  "mask is 0xFF when the tags match and 0x00 for each of the 255 non-zero accumulator values (same value the verdict is derived from)",
-                  "mask byte is not 0xFF on accept / 0x00 on every reject (accept: %s)" % (m0,), where=relpath(S.where))
-    return 1
+            okm = True
+            why = ""
+            for (mv, k) in set(used_mask_bits):
+                v0 = maskv[0].get(mv)
+                if v0 is None or not (v0 >> k) & 1:
+                    okm, why = False, "mask bit %d is not 1 when the tags match" % k
+                for a in range(1, 256):
+                    va = maskv[a].get(mv)
+                    if va is None or (va >> k) & 1:
+                        okm, why = False, "mask bit %d is not 0 for accumulator value %d (a rejection)" % (k, a)
+                        break
+            ck.ob(okm, "R-C04-WIPE", CT, "wipe-mask#%s[%s]" % (_an(f, S), label),
+                  "every mask bit used is 1 on accept and 0 for each of the 255 non-zero accumulator values", "mask is wrong: %s" % why, where=relpath(S.where))
+
+
+def _an(f, I):
+    return "%s%d" % (I.op, sum(1 for J in f.insts[:I.id] if J.op == I.op))
 
 
 def _scev_base(f, v):
